@@ -2,6 +2,7 @@ package main
 
 import (
 	"fmt"
+	"go/token"
 	"go/types"
 	"math/big"
 	"strings"
@@ -17,12 +18,29 @@ type Sorts struct {
 	zeroDecl map[string]bool
 	anon     int
 	tsubst   func(types.Type) types.Type
+	cuts     int // number of recursion cuts so far (results computed across a cut are not cached)
+	keep     map[string]map[string]bool // struct sort -> fields to materialise (nil: all)
+	used     map[string]map[string]bool // struct sort -> fields accessed in this run
 }
 
 type StructSort struct {
 	Sort   string
 	Ctor   string
 	Fields []StructField
+	Pruned bool // some Go fields are folded into the opaque "#rest" component
+}
+
+// needField is raised when a pruned struct field turns out to be needed: generation is restarted
+// with the field kept.
+type needField struct{ sort, field string }
+
+func (s *Sorts) markUsed(sort, field string) {
+	m := s.used[sort]
+	if m == nil {
+		m = map[string]bool{}
+		s.used[sort] = m
+	}
+	m[field] = true
 }
 type StructField struct {
 	Name string
@@ -32,7 +50,7 @@ type StructField struct {
 }
 
 func newSorts() *Sorts {
-	return &Sorts{byType: map[string]string{}, inProg: map[string]bool{}, declared: map[string]bool{}, structs: map[string]*StructSort{}, zeroDecl: map[string]bool{}}
+	return &Sorts{byType: map[string]string{}, inProg: map[string]bool{}, declared: map[string]bool{}, structs: map[string]*StructSort{}, zeroDecl: map[string]bool{}, used: map[string]map[string]bool{}}
 }
 
 func sanitize(s string) string {
@@ -97,13 +115,30 @@ func (s *Sorts) SortOf(t types.Type) string {
 		// recursive type: opaque at this occurrence
 		name := "Opq_" + sanitize(key)
 		s.declare(name, fmt.Sprintf("(declare-sort %s 0)", name))
+		s.cuts++
 		return name
 	}
 	s.inProg[key] = true
 	defer delete(s.inProg, key)
 	res := s.sortOf1(t, key)
-	s.byType[key] = res
+	if !strings.Contains(res, "Opq_") {
+		s.byType[key] = res // sorts embedding a recursion cut are not canonical for their type: not cached
+	}
 	return res
+}
+
+// cutType is the placeholder Go type given to a struct field whose sort was computed across a
+// recursion cut (e.g. roundCowState.commitParent): values read from it are opaque.
+func (s *Sorts) cutType(sort string) types.Type {
+	name := "Cut_" + sanitize(sort)
+	t := types.NewNamed(types.NewTypeName(token.NoPos, nil, name, nil), types.NewInterfaceType(nil, nil), nil)
+	s.byType[typeKey(t)] = sort
+	return t
+}
+
+func isCutType(t types.Type) bool {
+	n, ok := t.(*types.Named)
+	return ok && n.Obj().Pkg() == nil && strings.HasPrefix(n.Obj().Name(), "Cut_")
 }
 
 func (s *Sorts) sortOf1(t types.Type, key string) string {
@@ -161,6 +196,13 @@ func (s *Sorts) sortOf1(t types.Type, key string) string {
 		s.declare(name, fmt.Sprintf("(declare-datatypes ((%s 0)) (((mk_%s (%s.arr (Array Int %s)) (%s.off Int) (%s.len Int) (%s.cap Int)))))", name, name, name, es, name, name, name))
 		return name
 	case *types.Array:
+		if n, ok := baLen(u); ok {
+			// fixed byte arrays (addresses, digests, keys): one uninterpreted sort per length with a
+			// bytes observer; Go equality is sort equality
+			name := fmt.Sprintf("BA%d", n)
+			s.declare(name, fmt.Sprintf("(declare-sort %s 0)\n(declare-fun %s.bytes (%s) (Array Int Int))\n(declare-const %s.zero %s)\n(assert (= (%s.bytes %s.zero) ((as const (Array Int Int)) 0)))", name, name, name, name, name, name, name))
+			return name
+		}
 		es := s.SortOf(u.Elem())
 		return fmt.Sprintf("(Array Int %s)", es)
 	case *types.Map:
@@ -196,16 +238,33 @@ func (s *Sorts) declStruct(name string, st *types.Struct) string {
 	ss := &StructSort{Sort: name, Ctor: "mk_" + name}
 	s.structs[name] = ss // pre-register (recursion is cut by inProg)
 	var fs []string
+	pruned := false
 	for i := 0; i < st.NumFields(); i++ {
 		f := st.Field(i)
+		if s.keep != nil && !s.keep[name][f.Name()] {
+			// field never read or written by this verification: folded into the opaque `rest`
+			pruned = true
+			continue
+		}
 		fsort := s.SortOf(f.Type())
+		ftype := f.Type()
+		if strings.Contains(fsort, "Opq_") {
+			ftype = s.cutType(fsort)
+		}
 		fname := f.Name()
 		if fname == "_" {
 			fname = fmt.Sprintf("blank%d", i)
 		}
 		sel := name + "." + fname
-		ss.Fields = append(ss.Fields, StructField{Name: f.Name(), Sel: sel, Type: f.Type(), Sort: fsort})
+		ss.Fields = append(ss.Fields, StructField{Name: f.Name(), Sel: sel, Type: ftype, Sort: fsort})
 		fs = append(fs, fmt.Sprintf("(%s %s)", sel, fsort))
+	}
+	if pruned {
+		rs := "Rest_" + name
+		s.declare(rs, fmt.Sprintf("(declare-sort %s 0)", rs))
+		ss.Fields = append(ss.Fields, StructField{Name: "#rest", Sel: name + ".rest!", Type: s.cutType(rs), Sort: rs})
+		fs = append(fs, fmt.Sprintf("(%s.rest! %s)", name, rs))
+		ss.Pruned = true
 	}
 	if len(fs) == 0 {
 		s.declare(name, fmt.Sprintf("(declare-datatypes ((%s 0)) (((mk_%s))))", name, name))
@@ -213,6 +272,19 @@ func (s *Sorts) declStruct(name string, st *types.Struct) string {
 		s.declare(name, fmt.Sprintf("(declare-datatypes ((%s 0)) (((mk_%s %s))))", name, name, strings.Join(fs, " ")))
 	}
 	return name
+}
+
+// baLen reports whether t is a fixed array of bytes ([N]byte / [N]uint8) and returns N.
+func baLen(t types.Type) (int64, bool) {
+	a, ok := t.Underlying().(*types.Array)
+	if !ok {
+		return 0, false
+	}
+	b, ok := a.Elem().Underlying().(*types.Basic)
+	if !ok || b.Kind() != types.Uint8 {
+		return 0, false
+	}
+	return a.Len(), true
 }
 
 // StructOf returns the struct sort info for a Go type whose underlying type is a struct.
@@ -278,6 +350,14 @@ func (s *Sorts) Zero(t types.Type) string {
 		return "0"
 	}
 	sort := s.SortOf(t)
+	if isCutType(t) {
+		z := "zero_" + sanitize(sort)
+		if !s.zeroDecl[z] {
+			s.zeroDecl[z] = true
+			s.decls = append(s.decls, fmt.Sprintf("(declare-const %s %s)", z, sort))
+		}
+		return z
+	}
 	switch u := t.Underlying().(type) {
 	case *types.Basic:
 		switch {
@@ -305,6 +385,9 @@ func (s *Sorts) Zero(t types.Type) string {
 	case *types.Slice:
 		return fmt.Sprintf("(mk_%s ((as const (Array Int %s)) %s) 0 0 0)", sort, s.SortOf(u.Elem()), s.Zero(u.Elem()))
 	case *types.Array:
+		if _, ok := baLen(u); ok {
+			return sort + ".zero"
+		}
 		return fmt.Sprintf("((as const %s) %s)", sort, s.Zero(u.Elem()))
 	case *types.Map:
 		ks := s.SortOf(u.Key())
